@@ -124,9 +124,9 @@ Inductive un_ok : unop -> ty -> ty -> Prop :=
 Inductive bin_ok : binop -> ty -> ty -> ty -> Prop :=
 | B_arith_komma : forall o a b, is_arith o = true -> numeric a = true -> numeric b = true ->
                   (a = TKomma \/ b = TKomma) -> bin_ok o a b TKomma
-| B_arith_zahl : forall o, is_arith o = true -> bin_ok o TZahl TZahl TZahl
-| B_arith_byte : forall o a b, is_arith o = true -> is_index a = true -> is_index b = true ->
-                 (a = TByte \/ b = TByte) -> bin_ok o a b TByte
+| B_arith_zahl : forall o a b, is_arith o = true -> is_index a = true -> is_index b = true ->
+                 (a = TZahl \/ b = TZahl) -> bin_ok o a b TZahl        (* a Byte is widened (since 5ca8f5e) *)
+| B_arith_byte : forall o, is_arith o = true -> bin_ok o TByte TByte TByte
 | B_durch : forall a b, numeric a = true -> numeric b = true -> bin_ok BDurch a b TKomma
 | B_mod_zahl : forall a b, is_index a = true -> is_index b = true -> (a = TZahl \/ b = TZahl) -> bin_ok BMod a b TZahl
 | B_mod_byte : bin_ok BMod TByte TByte TByte
@@ -275,8 +275,8 @@ Definition bin_res (o : binop) (a b : ty) : option ty :=
       if numeric a && numeric b then
         match a, b with
         | TKomma, _ | _, TKomma => Some TKomma
-        | TZahl, TZahl => Some TZahl
-        | _, _ => Some TByte
+        | TByte, TByte => Some TByte
+        | _, _ => Some TZahl
         end
       else None
   | BDurch => if numeric a && numeric b then Some TKomma else None
